@@ -16,6 +16,7 @@ import (
 	"os"
 	"os/exec"
 	"path/filepath"
+	"reflect"
 	"regexp"
 	"sort"
 	"strings"
@@ -657,6 +658,39 @@ func Repeat(e *Env, progs []*spec.Program, n int) map[string][]string {
 				mu.Lock()
 				out[p.ID] = append(out[p.ID], h)
 				mu.Unlock()
+			}
+			// the target package probe: the same request under target_package_name vpa, then vpb, then vpb again with
+			// a pristine home / cache / temporary directory. The two vpb responses are one request's responses and
+			// carry `package vpb`; anything an earlier run (of another configuration) left behind must not show.
+			if n > 1 {
+				q := *p
+				q.Config.TargetPackageName = "vpa"
+				RunPlugin(e, &q)
+				q.Config.TargetPackageName = "vpb"
+				shared := RunPlugin(e, &q)
+				mark := ""
+				if d, err := os.MkdirTemp(e.Run, "pristine"); err == nil {
+					for _, sub := range []string{"home", "cache", "config", "tmp"} {
+						os.MkdirAll(filepath.Join(d, sub), 0o755)
+					}
+					env := []string{"HOME=" + filepath.Join(d, "home"), "XDG_CACHE_HOME=" + filepath.Join(d, "cache"),
+						"XDG_CONFIG_HOME=" + filepath.Join(d, "config"), "TMPDIR=" + filepath.Join(d, "tmp"),
+						"GOCACHE=" + goEnvValue("GOCACHE"), "GOMODCACHE=" + goEnvValue("GOMODCACHE"), "GOPATH=" + goEnvValue("GOPATH")}
+					fresh := RunPluginEnv(e, &q, env)
+					os.RemoveAll(d)
+					if fresh.Exit != shared.Exit || fresh.SHA != shared.SHA {
+						mark = "target-package-probe:stale-state"
+					}
+				}
+				if reflect.DeepEqual(p.Delivery, spec.Delivery{}) && shared.Exit == 0 && shared.Content != "" && !strings.Contains("\n"+shared.Content, "\npackage vpb\n") {
+					mark = "target-package-probe:package-clause"
+				}
+				RunPlugin(e, p) // leaves the program's own configuration file behind
+				if mark != "" {
+					mu.Lock()
+					out[p.ID] = append(out[p.ID], mark)
+					mu.Unlock()
+				}
 			}
 		}(p)
 	}
